@@ -28,11 +28,24 @@ ASSUMPTIONS = [
 ]
 
 
+_path_loaders = {}
+
+
 def loaders():
     import yaml
     out = [("py", yaml.Loader)]
     if have_c():
         out.append(("c", yaml.CLoader))
+    # user classes that use the (experimental) path resolvers: their resolver stacks are walked on every node
+    if not _path_loaders:
+        for name, base in [("py", yaml.Loader)] + ([("c", yaml.CLoader)] if have_c() else []):
+            cls = type("PathLoader", (base,), {})
+            cls.add_path_resolver("!at-a", ["a"], dict)
+            cls.add_path_resolver("!item", [None], str)
+            cls.add_path_resolver("!deep", ["a", None, "b"])
+            _path_loaders[name] = cls
+    for name, cls in _path_loaders.items():
+        out.append((name + "-path", cls))
     return out
 
 
@@ -106,7 +119,7 @@ def run_one(data, as_stream):
     n = len(data)
     cache = {}
     for bname, L in loaders():
-        for level in LEVELS:
+        for level in (LEVELS if "-path" not in bname else ("compose_all",)):
             evals += 1
             fn = getattr(yaml, level)
             src = data
@@ -133,7 +146,7 @@ def run_one(data, as_stream):
                 outcomes.append("recursion")       # out of scope by the property statement
             except yaml.YAMLError as e:
                 outcomes.append(type(e).__name__)
-                msg = check_marks(e, data, bname, cache)
+                msg = check_marks(e, data, bname.split("-")[0], cache)
                 if msg:
                     failures.append(Failure("bad-mark:%s:%s:%s" % (bname, level, exc_key(e)), msg))
             except Exception as e:
